@@ -629,9 +629,6 @@ func encodable(t *table, e text.Encoding) bool {
 // refusalExpected: the format cannot spell the table (so an error, and nothing written, is what the
 // property asks for)
 func refusalExpected(t *table, o opts, viaProc bool) (bool, string) {
-	if !encodable(t, o.enc) {
-		return true, "not_encodable"
-	}
 	switch o.format {
 	case option.CSV, option.TSV, option.FIXED:
 		if o.withoutHeader && len(t.rows) == 0 {
@@ -641,6 +638,12 @@ func refusalExpected(t *table, o opts, viaProc bool) (bool, string) {
 		if len(t.rows) == 0 {
 			return true, "no_rows"
 		}
+	}
+	if !encodable(t, o.enc) {
+		return true, "not_encodable"
+	}
+	switch o.format {
+	case option.LTSV:
 		for _, h := range t.header {
 			if !ltsvLabelOK(h) {
 				return true, "label"
